@@ -108,6 +108,12 @@ func negotiator(f func(*Session, *StreamConfig) StreamConfig) Negotiator {
 		// For more information see the internal/wskey package.
 		wsCtx := ctx.Value(wskey.Key{})
 		websocket := wsCtx != nil
+		// The session itself only sees the caller's context, which never carries
+		// the internal key: tell it which framing is being negotiated so that it
+		// reads and closes the stream accordingly afterwards.
+		if websocket {
+			s.ws = true
+		}
 
 		c := s.Conn()
 		// If the session is not already using a tee conn, but we're configured to
